@@ -412,7 +412,7 @@ def parse_array(node, buf, pos, cfg, ctx, notes):
         out = []
         if es is not None:
             if es == 0:
-                raise ModelUnsupported("EOF array of zero-size elements")
+                return [], pos
             while pos + es <= len(buf):
                 v, pos = parse(elem, buf, pos, cfg, ctx, notes)
                 out.append(v)
@@ -420,7 +420,10 @@ def parse_array(node, buf, pos, cfg, ctx, notes):
                 notes.add("eof_partial")
             return out, pos
         while pos < len(buf):
+            before = pos
             v, pos = parse(elem, buf, pos, cfg, ctx, notes)
+            if pos == before:
+                break       # an element without bytes can never take "every remaining whole element": none are taken
             out.append(v)
         return out, pos
     if f == "fixed":
